@@ -58,6 +58,9 @@ func (p *Chan) delivered() {
 }
 
 func NewChan(eltSize, cap int) *Chan {
+	if cap < 0 || (eltSize > 0 && uintptr(cap) > maxAlloc/uintptr(eltSize)) {
+		panic(errorString("makechan: size out of range").Error())
+	}
 	ret := new(Chan)
 	if cap > 0 {
 		ret.data = AllocU(uintptr(cap * eltSize))
@@ -92,7 +95,14 @@ func notifyOps(p *Chan) {
 }
 
 func ChanClose(p *Chan) {
+	if p == nil {
+		panic(errorString("close of nil channel").Error())
+	}
 	p.mutex.Lock()
+	if p.close {
+		p.mutex.Unlock()
+		panic(errorString("close of closed channel").Error())
+	}
 	p.close = true
 	notifyOps(p)
 	p.mutex.Unlock()
@@ -143,7 +153,7 @@ func ChanSend(p *Chan, v unsafe.Pointer, eltSize int) bool {
 		}
 		if p.close {
 			p.mutex.Unlock()
-			return false
+			panic(errorString("send on closed channel").Error())
 		}
 		if p.data != nil {
 			c.Memcpy(p.data, v, uintptr(eltSize))
@@ -156,7 +166,7 @@ func ChanSend(p *Chan, v unsafe.Pointer, eltSize int) bool {
 		}
 		if p.close {
 			p.mutex.Unlock()
-			return false
+			panic(errorString("send on closed channel").Error())
 		}
 		off := (p.getp + p.len) % n
 		c.Memcpy(c.Advance(p.data, off*eltSize), v, uintptr(eltSize))
